@@ -32,7 +32,7 @@ impl Known {
 /// boundary; it is inside 'x' (bytes #..#) of `text`") would give one key per text. Quoted parts are blanked.
 pub fn normalise_panic_key(sig: &str) -> String {
     let parts: Vec<&str> = sig.split('|').collect();
-    if parts.len() < 5 || parts[0] != "panic" {
+    if parts.len() < 5 || parts[0] != "panic" || !parts[3].contains("char boundary") {
         return sig.to_string();
     }
     let msg: Vec<char> = parts[3].chars().collect();
